@@ -31,7 +31,7 @@ META = {
 }
 
 ATOMS = ["a", "foo-bar", ":kw", "12", "1.5", '"s"', '"two\nlines"', 'r"raw\\n"', 'b"by"', "#[[br\nack]]", "#[x[ y ]x]", 'f"a{b}c"',
-         'f"{x !r :>{w}}"', "'q", "`(a ~b ~@c)", "#* xs", "#** kw", "#^ int x", "a.b.c", ".m", "None", "...", "#_ junk zz"]
+         'f"{x !r :>{w}}"', '"caf\u00e9"', "na\u00efve", '"\u2603 snow \U0001f600"', "'q", "`(a ~b ~@c)", "#* xs", "#** kw", "#^ int x", "a.b.c", ".m", "None", "...", "#_ junk zz"]
 
 
 def programs(rng, n):
